@@ -397,6 +397,8 @@ func propC06(c *Check) {
 	c.Rule("R4", "verification: in NewEthBlock it precedes the processing of the payload's own requests; extra-data length and count guards; expected txs come from the same two dequeue functions in the same order as Dequeue; each compared byte-for-byte; the count reaches zero")
 	c.Rule("R5", "queue writers: other writers of the queues only append at the tail")
 	c.Rule("R6", "matured unlocks enter the hand-over queue in maturity order, each exactly once: the sweep collects every entry it visits, in walk order, removes it and appends the collected unlocks at the tail (C15/R2)")
+	c.Rule("R7", "claimed rewards are handed over once: a claim queues exactly what the record holds and clears it before the next request is looked at (C12/R3)")
+	c.Depend("R7", "C12", propC12, map[string]bool{"R3": true}, "a reward queued twice for one accrual is a duplicated hand-over")
 	c.Depend("R6", "C15", propC15, map[string]bool{"R2": true}, "an entry skipped while the walk goes on is overtaken by later-matured unlocks (first-in-first-out within the kind) or stranded")
 
 	cg := p.CG()
